@@ -33,12 +33,46 @@ def afterFault (c : Cfg) (fc : FCfg) (mk : Mk) (w : WSt) (d : Disk) (rs : List R
 /-- The full-strength statement.  The buffer `w.buf` is arbitrary — in particular it may hold more
     than `maxEnts` entries, which is what a series of failed flushes leaves behind — and the
     encoder is only assumed to work for batches that fit the 16-bit count field (`MkOk`). -/
-def Holds (c : Cfg) (fc : FCfg) : Prop :=
+def HoldsFlush (c : Cfg) (fc : FCfg) : Prop :=
   ∀ (mk : Mk), MkOk mk → ∀ (nl : Nat) (bs : List Block), (∀ b ∈ bs, b.WF) →
   ∀ (w : WSt) (d : Disk), WInv d w (fileCells nl bs) → w.nl = nl → w.dirty = false →
   ∀ (rs : List Res) (during after : List (Op × Nat)),
     ∃ f, (afterFault c fc mk w d rs during after).d.get w.path = some f ∧
       loadEntries c.r f = entsOf bs ++ w.buf ++ during.map (·.1) ++ after.map (·.1)
+
+/-- **A deleted record stays deleted.**  A record `k` (not live before) is handed to `WriteEntry`
+    under the results `rs`.  The swamp gives a treasure a file pointer only when that call reported
+    success, and a later `Delete` writes a tombstone only for a treasure that has one.  The fault
+    clears, the record is deleted, `Sync`: the file must not bring `k` back. -/
+def DeleteSticks (c : Cfg) (fc : FCfg) : Prop :=
+  ∀ (mk : Mk), MkOk mk → ∀ (nl : Nat) (bs : List Block), (∀ b ∈ bs, b.WF) →
+  ∀ (w : WSt) (d : Disk), WInv d w (fileCells nl bs) → w.nl = nl → w.dirty = false →
+  ∀ (rs : List Res) (k v sz szd : Nat), Index.get (Index.replay [] (entsOf bs ++ w.buf)) k = none →
+    ∃ f, (syncWF c fc mk (addManyWF fc mk (cleared (addWF fc mk { w := w, d := d, rs := rs } (.put k v) sz))
+            (if (addWF fc mk { w := w, d := d, rs := rs } (.put k v) sz).failed then [] else [(Op.del k, szd)]))).d.get w.path = some f ∧
+      Index.get (Index.replay [] (loadEntries c.r f)) k = none
+
+/-- what follows a `Close` that failed: with `closeKeepsWriter` the chronicler's writer is still
+    usable — more entries, then `Close` again; otherwise its descriptor is closed and nothing it is
+    handed reaches the disk any more -/
+def closeAgain (c : Cfg) (fc : FCfg) (mk : Mk) (s1 : FSt) (items : List (Op × Nat)) : FSt :=
+  if fc.closeKeepsWriter then closeWF c fc mk (addManyWF fc mk (cleared s1) items) else s1
+
+/-- **A failed Close is not the end of the writer.**  `Close` fails under the results `rs` (the
+    chronicler keeps its writer: inline compaction, swamp not evicted); the fault clears, more is
+    written, `Close` again: everything is in the file. -/
+def CloseRetry (c : Cfg) (fc : FCfg) : Prop :=
+  ∀ (mk : Mk), MkOk mk → ∀ (nl : Nat) (bs : List Block), (∀ b ∈ bs, b.WF) →
+  ∀ (w : WSt) (d : Disk), WInv d w (fileCells nl bs) → w.nl = nl → w.dirty = false →
+  ∀ (rs : List Res) (items : List (Op × Nat)), (closeWF c fc mk { w := w, d := d, rs := rs }).failed = true →
+    ∃ f, (closeAgain c fc mk (closeWF c fc mk { w := w, d := d, rs := rs }) items).d.get w.path = some f ∧
+      loadEntries c.r f = entsOf bs ++ w.buf ++ items.map (·.1)
+
+/-- The full-strength statement. -/
+structure Holds (c : Cfg) (fc : FCfg) : Prop where
+  flush : HoldsFlush c fc
+  deleteSticks : DeleteSticks c fc
+  closeRetry : CloseRetry c fc
 
 /-! ### After the fault has cleared the writer is the plain writer -/
 
@@ -85,7 +119,7 @@ theorem apply_write_nil (d : Disk) (p : Path) (f : List Cell) (h : d.get p = som
     block is written; when the first write fails outright the entries are gone, although the
     caller (`chronicler.Write`) only logs the error.  Later writes succeed, so the loss is silent. -/
 theorem failed_write_drops_entries (c : Cfg) (fc : FCfg) (h1 : fc.clearsBufferBeforeWrite = true)
-    (h2 : fc.rollsBackFailedBlock = false) : ¬ Holds c fc := by
+    (h2 : fc.rollsBackFailedBlock = false) : ¬ HoldsFlush c fc := by
   intro hh
   -- empty file, one buffered entry, the header write of its block fails with nothing transferred
   let mk0 : Mk := mkP 1
@@ -166,7 +200,8 @@ theorem writeBlockF_spec (fc : FCfg) (h1 : fc.rollsBackFailedBlock = true) (h2 :
     r.1.w.path = s.w.path ∧ r.1.w.nl = s.w.nl ∧
     ((r.1.w.buf = rest ∧ r.1.w.dirty = false ∧ WInv r.1.d r.1.w (F ++ blockCells (mk chunk))) ∨
      (r.2 = false ∧ r.1.w.buf = chunk ++ rest ∧ ∃ junk, DInv r.1.d r.1.w F junk)) ∧
-    (s.rs = [] → r.2 = true ∧ r.1.rs = [] ∧ r.1.failed = s.failed) := by
+    (s.rs = [] → r.2 = true ∧ r.1.rs = [] ∧ r.1.failed = s.failed) ∧
+    ((r.2 = true → r.1.failed = s.failed) ∧ (r.2 = false → r.1.failed = true)) := by
   intro r hr
   subst hr
   have hF := hinv.atEnd
@@ -218,23 +253,23 @@ theorem writeBlockF_spec (fc : FCfg) (h1 : fc.rollsBackFailedBlock = true) (h2 :
       rw [e1, e2]
       by_cases k3 : (nextRes (nextRes (nextRes s.rs).2).2).1.isOk = true
       · simp only [k3, Bool.not_true, Bool.false_eq_true, if_false]
-        refine ⟨trivial, trivial, Or.inl ⟨trivial, hdirty, ⟨g3 _, hpos, hh⟩⟩, ?_⟩
+        refine ⟨trivial, trivial, Or.inl ⟨trivial, hdirty, ⟨g3 _, hpos, hh⟩⟩, ?_, by simp⟩
         intro hrs; simp [hrs, nextRes_nil]
       · simp only [k3, Bool.not_false, if_true]
-        refine ⟨trivial, trivial, Or.inl ⟨trivial, hdirty, ⟨g3 _, hpos, hh⟩⟩, ?_⟩
+        refine ⟨trivial, trivial, Or.inl ⟨trivial, hdirty, ⟨g3 _, hpos, hh⟩⟩, ?_, by simp⟩
         intro hrs; rw [hrs] at k3; simp [nextRes_nil, Res.isOk] at k3
     · -- the payload write failed
       simp only [k2, Bool.not_false, if_true]
       have g2 := get_applyRes_write _ s.w.path _ g1 (payCells (mk chunk)) (nextRes (nextRes s.rs).2).1
       rw [hl, List.append_assoc] at g2
       rw [e1]
-      refine ⟨trivial, trivial, Or.inr ⟨trivial, hbuf, roll _ _ (nextRes (nextRes (nextRes s.rs).2).2).1 _ g2 rfl rfl rfl rfl⟩, ?_⟩
+      refine ⟨trivial, trivial, Or.inr ⟨trivial, hbuf, roll _ _ (nextRes (nextRes (nextRes s.rs).2).2).1 _ g2 rfl rfl rfl rfl⟩, ?_, by simp⟩
       intro hrs; rw [hrs] at k2; simp [nextRes_nil, Res.isOk] at k2
   · -- the header write failed
     simp only [k1, Bool.not_false, if_true]
     have g1 := get_applyRes_write s.d s.w.path _ hfile (hdrCells (mk chunk)) (nextRes s.rs).1
     rw [← hF] at g1
-    refine ⟨trivial, trivial, Or.inr ⟨trivial, hbuf, roll _ _ (nextRes (nextRes s.rs).2).1 _ g1 rfl rfl rfl rfl⟩, ?_⟩
+    refine ⟨trivial, trivial, Or.inr ⟨trivial, hbuf, roll _ _ (nextRes (nextRes s.rs).2).1 _ g1 rfl rfl rfl rfl⟩, ?_, by simp⟩
     intro hrs; rw [hrs] at k1; simp [nextRes_nil, Res.isOk] at k1
 
 /-- what a step of the repaired writer guarantees, whatever the results: whole well-formed blocks
@@ -253,28 +288,32 @@ theorem lt_succ_mul {a n m : Nat} (hm : 0 < m) (h : a ≤ (n + 1) * m) (hlt : m 
 
 /-- **The block loop of the repaired, splitting flush.**  Every block holds at most `maxEnts`
     entries (so the encoder's count field is exact: the blocks are well formed); what is not
-    written stays buffered in order; with enough fuel and no fault the buffer ends up empty. -/
+    written stays buffered in order; with enough fuel the buffer ends up empty whenever no
+    operation failed (in particular when no fault is left in the result stream). -/
 theorem flushBlocks_spec (fc : FCfg) (h1 : fc.rollsBackFailedBlock = true) (h2 : fc.restoresOffsetAfterHeader = true)
     (h3 : fc.splitsOversizedBuffer = true) (mk : Mk) (hmk : MkOk mk) : ∀ (n : Nat) (s : FSt) (F : List Cell),
     WInv s.d s.w F → s.w.dirty = false →
     ∃ nbs junk, entsOf nbs ++ (flushBlocks fc mk n s).w.buf = s.w.buf ∧ FPost s (flushBlocks fc mk n s) F nbs junk ∧
-      (s.rs = [] → s.w.buf.length ≤ n * maxEnts → (flushBlocks fc mk n s).w.buf = [] ∧ (flushBlocks fc mk n s).w.dirty = false) := by
+      (s.rs = [] → s.w.buf.length ≤ n * maxEnts → (flushBlocks fc mk n s).w.buf = [] ∧ (flushBlocks fc mk n s).w.dirty = false) ∧
+      ((flushBlocks fc mk n s).failed = false → s.w.buf.length ≤ n * maxEnts →
+        (flushBlocks fc mk n s).w.buf = [] ∧ (flushBlocks fc mk n s).w.dirty = false) := by
   intro n
   induction n with
   | zero =>
     intro s F hinv hdirty
-    refine ⟨[], [], by simp [entsOf, flushBlocks], ⟨by simp, by rw [render_nil_append]; exact hinv.toDInv, rfl, rfl,
-      fun h => ⟨h, rfl⟩⟩, ?_⟩
-    intro _ hl
-    simp only [flushBlocks]
-    exact ⟨List.eq_nil_of_length_eq_zero (by omega), hdirty⟩
+    have hz : s.w.buf.length ≤ 0 * maxEnts → (flushBlocks fc mk 0 s).w.buf = [] ∧ (flushBlocks fc mk 0 s).w.dirty = false := by
+      intro hl
+      simp only [flushBlocks]
+      exact ⟨List.eq_nil_of_length_eq_zero (by omega), hdirty⟩
+    exact ⟨[], [], by simp [entsOf, flushBlocks], ⟨by simp, by rw [render_nil_append]; exact hinv.toDInv, rfl, rfl,
+      fun h => ⟨h, rfl⟩⟩, fun _ => hz, fun _ => hz⟩
   | succ n ih =>
     intro s F hinv hdirty
     by_cases hb : s.w.buf = []
     · have : flushBlocks fc mk (n + 1) s = s := by rw [flushBlocks]; simp [hb]
       rw [this]
       exact ⟨[], [], by simp [entsOf], ⟨by simp, by rw [render_nil_append]; exact hinv.toDInv, rfl, rfl,
-        fun h => ⟨h, rfl⟩⟩, fun _ _ => ⟨hb, hdirty⟩⟩
+        fun h => ⟨h, rfl⟩⟩, fun _ _ => ⟨hb, hdirty⟩, fun _ _ => ⟨hb, hdirty⟩⟩
     by_cases hbig : maxEnts < s.w.buf.length
     · -- more than one block's worth: the first `maxEnts` entries, then the rest
       have hstep : flushBlocks fc mk (n + 1) s =
@@ -292,14 +331,19 @@ theorem flushBlocks_spec (fc : FCfg) (h1 : fc.rollsBackFailedBlock = true) (h2 :
         have := maxEnts_pos; omega
       have hlen : (s.w.buf.take maxEnts).length ≤ maxEnts := by simp [List.length_take]; omega
       obtain ⟨hwf, hents⟩ := hmk _ hne hlen
-      obtain ⟨hp, hnl, hout, hclr⟩ := writeBlockF_spec fc h1 h2 mk s F hinv hdirty (s.w.buf.take maxEnts)
+      obtain ⟨hp, hnl, hout, hclr, hgoT, hgoF⟩ := writeBlockF_spec fc h1 h2 mk s F hinv hdirty (s.w.buf.take maxEnts)
         (s.w.buf.drop maxEnts) (s.w.szs.drop maxEnts) (List.take_append_drop _ _).symm _ rfl
       rw [hstep]
       rcases hout with ⟨hbuf, hdt, hw⟩ | ⟨hgo, hbuf, junk, hj⟩
       · by_cases hgo : (writeBlockF fc mk s (s.w.buf.take maxEnts) (s.w.buf.drop maxEnts) (s.w.szs.drop maxEnts)).2 = true
         · rw [if_pos hgo]
-          obtain ⟨nbs, junk, he, hpost, hfin⟩ := ih _ _ hw hdt
-          refine ⟨mk (s.w.buf.take maxEnts) :: nbs, junk, ?_, ⟨?_, ?_, hpost.path.trans hp, hpost.nl.trans hnl, ?_⟩, ?_⟩
+          obtain ⟨nbs, junk, he, hpost, hfin, hfin2⟩ := ih _ _ hw hdt
+          have hrest : s.w.buf.length ≤ (n + 1) * maxEnts →
+              (writeBlockF fc mk s (s.w.buf.take maxEnts) (s.w.buf.drop maxEnts) (s.w.szs.drop maxEnts)).1.w.buf.length ≤ n * maxEnts := by
+            intro hl
+            rw [hbuf, List.length_drop]
+            exact lt_succ_mul maxEnts_pos hl hbig
+          refine ⟨mk (s.w.buf.take maxEnts) :: nbs, junk, ?_, ⟨?_, ?_, hpost.path.trans hp, hpost.nl.trans hnl, ?_⟩, ?_, ?_⟩
           · rw [show entsOf (mk (s.w.buf.take maxEnts) :: nbs) = (mk (s.w.buf.take maxEnts)).ents ++ entsOf nbs by simp [entsOf]]
             rw [hents, List.append_assoc, he, hbuf, List.take_append_drop]
           · intro b hb'
@@ -315,24 +359,28 @@ theorem flushBlocks_spec (fc : FCfg) (h1 : fc.rollsBackFailedBlock = true) (h2 :
             exact ⟨hr2, hf2.trans hf1⟩
           · intro hrs hl
             obtain ⟨_, hr1, _⟩ := hclr hrs
-            refine hfin hr1 ?_
-            rw [hbuf, List.length_drop]
-            exact lt_succ_mul maxEnts_pos hl hbig
+            exact hfin hr1 (hrest hl)
+          · intro hf hl
+            exact hfin2 hf (hrest hl)
         · rw [if_neg hgo]
-          refine ⟨[mk (s.w.buf.take maxEnts)], [], ?_, ⟨?_, ?_, hp, hnl, ?_⟩, ?_⟩
+          have hfl := hgoF (by simpa using hgo)
+          refine ⟨[mk (s.w.buf.take maxEnts)], [], ?_, ⟨?_, ?_, hp, hnl, ?_⟩, ?_, ?_⟩
           · simp only [entsOf, List.flatMap_cons, List.flatMap_nil, List.append_nil]
             rw [hents, hbuf, List.take_append_drop]
           · intro b hb'; simp only [List.mem_cons, List.not_mem_nil, or_false] at hb'; subst hb'; exact hwf
           · rw [render_one]; exact hw.toDInv
           · intro hrs; exact absurd (hclr hrs).1 hgo
           · intro hrs; exact absurd (hclr hrs).1 hgo
+          · intro hf; rw [hfl] at hf; cases hf
       · rw [hgo]
         simp only [Bool.false_eq_true, if_false]
-        refine ⟨[], junk, ?_, ⟨by simp, ?_, hp, hnl, ?_⟩, ?_⟩
+        have hfl := hgoF hgo
+        refine ⟨[], junk, ?_, ⟨by simp, ?_, hp, hnl, ?_⟩, ?_, ?_⟩
         · simp only [entsOf, List.flatMap_nil, List.nil_append]; rw [hbuf, List.take_append_drop]
         · rw [render_nil_append]; exact hj
         · intro hrs; have := (hclr hrs).1; rw [hgo] at this; cases this
         · intro hrs; have := (hclr hrs).1; rw [hgo] at this; cases this
+        · intro hf; rw [hfl] at hf; cases hf
     · -- one block
       have hstep : flushBlocks fc mk (n + 1) s = (writeBlockF fc mk s s.w.buf [] []).1 := by
         rw [flushBlocks]
@@ -341,20 +389,23 @@ theorem flushBlocks_spec (fc : FCfg) (h1 : fc.rollsBackFailedBlock = true) (h2 :
         · simp [hbig]
       have hlen : s.w.buf.length ≤ maxEnts := Nat.le_of_not_lt hbig
       obtain ⟨hwf, hents⟩ := hmk _ hb hlen
-      obtain ⟨hp, hnl, hout, hclr⟩ := writeBlockF_spec fc h1 h2 mk s F hinv hdirty s.w.buf [] [] (by simp) _ rfl
+      obtain ⟨hp, hnl, hout, hclr, hgoT, hgoF⟩ := writeBlockF_spec fc h1 h2 mk s F hinv hdirty s.w.buf [] [] (by simp) _ rfl
       rw [hstep]
       rcases hout with ⟨hbuf, hdt, hw⟩ | ⟨hgo, hbuf, junk, hj⟩
-      · refine ⟨[mk s.w.buf], [], ?_, ⟨?_, ?_, hp, hnl, ?_⟩, ?_⟩
+      · refine ⟨[mk s.w.buf], [], ?_, ⟨?_, ?_, hp, hnl, ?_⟩, ?_, ?_⟩
         · simp only [entsOf, List.flatMap_cons, List.flatMap_nil, List.append_nil]; rw [hents, hbuf, List.append_nil]
         · intro b hb'; simp only [List.mem_cons, List.not_mem_nil, or_false] at hb'; subst hb'; exact hwf
         · rw [render_one]; exact hw.toDInv
         · intro hrs; exact (hclr hrs).2
         · intro _ _; exact ⟨hbuf, hdt⟩
-      · refine ⟨[], junk, ?_, ⟨by simp, ?_, hp, hnl, ?_⟩, ?_⟩
+        · intro _ _; exact ⟨hbuf, hdt⟩
+      · have hfl := hgoF hgo
+        refine ⟨[], junk, ?_, ⟨by simp, ?_, hp, hnl, ?_⟩, ?_, ?_⟩
         · simp only [entsOf, List.flatMap_nil, List.nil_append]; rw [hbuf, List.append_nil]
         · rw [render_nil_append]; exact hj
         · intro hrs; have := (hclr hrs).1; rw [hgo] at this; cases this
         · intro hrs; have := (hclr hrs).1; rw [hgo] at this; cases this
+        · intro hf; rw [hfl] at hf; cases hf
 
 theorem fuel_enough (a : Nat) : a ≤ (a / maxEnts + 1) * maxEnts := by
   have := Nat.lt_div_mul_add (a := a) maxEnts_pos
@@ -365,13 +416,14 @@ theorem flushWF_spec (fc : FCfg) (h1 : fc.rollsBackFailedBlock = true) (h2 : fc.
     (h3 : fc.splitsOversizedBuffer = true) (mk : Mk) (hmk : MkOk mk) (s : FSt) (F junk : List Cell)
     (hi : DInv s.d s.w F junk) :
     ∃ nbs junk', entsOf nbs ++ (flushWF fc mk s).w.buf = s.w.buf ∧ FPost s (flushWF fc mk s) F nbs junk' ∧
-      (s.rs = [] → (flushWF fc mk s).w.buf = [] ∧ (flushWF fc mk s).w.dirty = false) := by
+      (s.rs = [] → (flushWF fc mk s).w.buf = [] ∧ (flushWF fc mk s).w.dirty = false) ∧
+      ((flushWF fc mk s).failed = false → (flushWF fc mk s).w.buf = [] ∧ (flushWF fc mk s).w.dirty = false) := by
   by_cases hd : s.w.dirty = false
   · have : flushWF fc mk s = flushBlocks fc mk (s.w.buf.length / maxEnts + 1) s := by
       unfold flushWF; simp [hd]
     rw [this]
-    obtain ⟨nbs, j, he, hp, hfin⟩ := flushBlocks_spec fc h1 h2 h3 mk hmk _ s F (hi.toWInv hd) hd
-    exact ⟨nbs, j, he, hp, fun hrs => hfin hrs (fuel_enough _)⟩
+    obtain ⟨nbs, j, he, hp, hfin, hfin2⟩ := flushBlocks_spec fc h1 h2 h3 mk hmk _ s F (hi.toWInv hd) hd
+    exact ⟨nbs, j, he, hp, fun hrs => hfin hrs (fuel_enough _), fun hf => hfin2 hf (fuel_enough _)⟩
   · have hd' : s.w.dirty = true := by simpa using hd
     by_cases k : (nextRes s.rs).1.isOk = true
     · -- the fragment is cut off, then the blocks
@@ -386,8 +438,8 @@ theorem flushWF_spec (fc : FCfg) (h1 : fc.rollsBackFailedBlock = true) (h2 : fc.
         refine ⟨?_, hi.atEnd, hi.hdr⟩
         show (s.d.applyRes (.truncate s.w.path s.w.pos) .ok).get s.w.path = some F
         rw [hi.atEnd]; exact get_truncate_back s.d s.w.path F junk hi.file
-      obtain ⟨nbs, j, he, hp, hfin⟩ := flushBlocks_spec fc h1 h2 h3 mk hmk (s.w.buf.length / maxEnts + 1) t F hw rfl
-      refine ⟨nbs, j, he, ⟨hp.wf, hp.inv, hp.path, hp.nl, ?_⟩, ?_⟩
+      obtain ⟨nbs, j, he, hp, hfin, hfin2⟩ := flushBlocks_spec fc h1 h2 h3 mk hmk (s.w.buf.length / maxEnts + 1) t F hw rfl
+      refine ⟨nbs, j, he, ⟨hp.wf, hp.inv, hp.path, hp.nl, ?_⟩, ?_, fun hf => hfin2 hf (fuel_enough _)⟩
       · intro hrs
         have ht : t.rs = [] := by show (nextRes s.rs).2 = []; rw [hrs]; rfl
         exact hp.clear ht
@@ -401,13 +453,14 @@ theorem flushWF_spec (fc : FCfg) (h1 : fc.rollsBackFailedBlock = true) (h2 : fc.
                                          rs := (nextRes s.rs).2, failed := true } := by
         unfold flushWF; simp [h1, hd', issue_eq, k']
       rw [this]
-      refine ⟨[], junk, by simp [entsOf], ⟨by simp, ?_, rfl, rfl, ?_⟩, ?_⟩
+      refine ⟨[], junk, by simp [entsOf], ⟨by simp, ?_, rfl, rfl, ?_⟩, ?_, ?_⟩
       · rw [render_nil_append]
         refine ⟨?_, hi.atEnd, hi.hdr, hi.clean⟩
         show (s.d.applyRes (.truncate s.w.path s.w.pos) (nextRes s.rs).1).get s.w.path = _
         rw [get_truncate_failed _ _ _ _ k']; exact hi.file
       · intro hrs; rw [hrs] at k'; simp [nextRes_nil, Res.isOk] at k'
       · intro hrs; rw [hrs] at k'; simp [nextRes_nil, Res.isOk] at k'
+      · intro hf; cases hf
 
 /-- **No block of the repaired flush can carry a wrapped count**: every block it puts on disk,
     whatever the results and however long the buffer has grown, holds at most `maxEnts` entries
@@ -418,7 +471,7 @@ theorem flush_chunks_bounded (fc : FCfg) (h1 : fc.rollsBackFailedBlock = true) (
     ∃ nbs junk', (flushWF fc mk s).d.get s.w.path = some (F ++ render nbs ++ junk') ∧
       entsOf nbs ++ (flushWF fc mk s).w.buf = s.w.buf ∧
       ∀ b ∈ nbs, b.ents.length ≤ maxEnts ∧ b.cnt = b.ents.length := by
-  obtain ⟨nbs, j, he, hp, _⟩ := flushWF_spec fc h1 h2 h3 mk hmk s F junk hi
+  obtain ⟨nbs, j, he, hp, _, _⟩ := flushWF_spec fc h1 h2 h3 mk hmk s F junk hi
   refine ⟨nbs, j, by rw [← hp.path]; exact hp.inv.file, he, ?_⟩
   intro b hb
   have hw := hp.wf b hb
@@ -439,8 +492,10 @@ theorem addWF_spec (fc : FCfg) (h1 : fc.rollsBackFailedBlock = true) (h2 : fc.re
   simp only
   split
   · have hi' : DInv s.d (s.w.push e sz) F junk := ⟨hi.file, hi.atEnd, hi.hdr, hi.clean⟩
-    obtain ⟨nbs, j, he, hp, _⟩ := flushWF_spec fc h1 h2 h3 mk hmk { s with w := s.w.push e sz } F junk hi'
-    exact ⟨nbs, j, he, ⟨hp.wf, hp.inv, hp.path, hp.nl, hp.clear⟩⟩
+    obtain ⟨nbs, j, he, hp, _, _⟩ := flushWF_spec fc h1 h2 h3 mk hmk { s with w := s.w.push e sz } F junk hi'
+    cases fc.addReportsFlushError
+    · exact ⟨nbs, j, he, ⟨hp.wf, hp.inv, hp.path, hp.nl, fun h => ⟨(hp.clear h).1, rfl⟩⟩⟩
+    · exact ⟨nbs, j, he, ⟨hp.wf, hp.inv, hp.path, hp.nl, hp.clear⟩⟩
   · exact ⟨[], junk, by simp [entsOf, WSt.push], ⟨by simp, by
       rw [render_nil_append]; exact ⟨hi.file, hi.atEnd, hi.hdr, hi.clean⟩, rfl, rfl, fun h => ⟨h, rfl⟩⟩⟩
 
@@ -476,7 +531,7 @@ theorem syncWF_ok_spec (c : Cfg) (fc : FCfg) (h1 : fc.rollsBackFailedBlock = tru
     (h3 : fc.splitsOversizedBuffer = true) (mk : Mk) (hmk : MkOk mk) (s : FSt)
     (F junk : List Cell) (hi : DInv s.d s.w F junk) (h : s.rs = []) :
     ∃ nbs, entsOf nbs = s.w.buf ∧ (∀ b ∈ nbs, b.WF) ∧ (syncWF c fc mk s).d.get s.w.path = some (F ++ render nbs) := by
-  obtain ⟨nbs, j, he, hp, hfin⟩ := flushWF_spec fc h1 h2 h3 mk hmk { s with failed := false } F junk
+  obtain ⟨nbs, j, he, hp, hfin, _⟩ := flushWF_spec fc h1 h2 h3 mk hmk { s with failed := false } F junk
     ⟨hi.file, hi.atEnd, hi.hdr, hi.clean⟩
   obtain ⟨hbuf, hdt⟩ := hfin h
   obtain ⟨hrs, hfl⟩ := hp.clear h
@@ -501,10 +556,10 @@ theorem syncWF_ok_spec (c : Cfg) (fc : FCfg) (h1 : fc.rollsBackFailedBlock = tru
     buffer length.**  With a flush that rolls a failed block back (retrying a failed rollback
     before the next block), restores the offset after a failed header rewrite and never puts more
     than `maxEnts` entries into a block, the full statement holds. -/
-theorem holds_of_repaired (c : Cfg) (fc : FCfg) (h1 : fc.rollsBackFailedBlock = true)
-    (h2 : fc.restoresOffsetAfterHeader = true) (h3 : fc.splitsOversizedBuffer = true) : Holds c fc := by
+theorem flush_holds_of_repaired (c : Cfg) (fc : FCfg) (h1 : fc.rollsBackFailedBlock = true)
+    (h2 : fc.restoresOffsetAfterHeader = true) (h3 : fc.splitsOversizedBuffer = true) : HoldsFlush c fc := by
   intro mk hmk nl bs hwf w d hinv _ hdirty rs during after
-  obtain ⟨n1, j1, e1, p1, _⟩ := flushWF_spec fc h1 h2 h3 mk hmk { w := w, d := d, rs := rs } _ [] hinv.toDInv
+  obtain ⟨n1, j1, e1, p1, _, _⟩ := flushWF_spec fc h1 h2 h3 mk hmk { w := w, d := d, rs := rs } _ [] hinv.toDInv
   obtain ⟨n2, j2, e2, w2, i2, q2, _, _⟩ := addManyWF_spec fc h1 h2 h3 mk hmk during _ _ j1 p1.inv
   obtain ⟨n3, j3, e3, w3, i3, q3, _, r3⟩ := addManyWF_spec fc h1 h2 h3 mk hmk after
     (cleared (addManyWF fc mk (flushWF fc mk { w := w, d := d, rs := rs }) during)) _ j2
@@ -543,7 +598,7 @@ theorem holds_of_repaired (c : Cfg) (fc : FCfg) (h1 : fc.rollsBackFailedBlock = 
     has wrapped; the reader rejects it and with it every record of the file — those that were
     durable before the fault included.  Closed witness: 100 … no fault needed at all once the
     buffer is that long: one durable block, 65536 buffered entries, every operation succeeds. -/
-theorem oversized_block_unreadable (c : Cfg) (fc : FCfg) (h3 : fc.splitsOversizedBuffer = false) : ¬ Holds c fc := by
+theorem oversized_block_unreadable (c : Cfg) (fc : FCfg) (h3 : fc.splitsOversizedBuffer = false) : ¬ HoldsFlush c fc := by
   intro hh
   let mk0 : Mk := mkP 1
   have hmk : MkOk mk0 := mkP_ok 1 Nat.one_pos
@@ -579,12 +634,236 @@ theorem oversized_block_unreadable (c : Cfg) (fc : FCfg) (h3 : fc.splitsOversize
   rw [hwp, hfin] at hget
   cases hget
   -- the reader rejects the block, and with it the durable one in front of it
-  have hbad := loadFile_badcnt c.r 0 [b0] hwf (mk0 es) rfl (by simp [le32, mk0, mkP])
+  have hbad := loadFile_badcnt c.r 0 [b0] hwf (mk0 es) rfl (by simp [le32, mk0, mkP]) Nat.one_pos
     (mkP_wraps 1 es (by rw [hlen]; decide))
   have hwb : w.buf = es := rfl
   simp only [loadEntries, F, hbad, hwb] at hload
   have := congrArg List.length hload
   simp [entsOf, hlen] at this
+
+/-! ### Deleting after a failed flush; closing again after a failed Close -/
+
+theorem get_hdr_rewrite (d : Disk) (p : Path) (f : List Cell) (nl : Nat) (h : d.get p = some f) (hh : HdrOk f nl) (r : Res) :
+    (d.applyRes (.write p 0 (fhCells nl)) r).get p = some f := by
+  have := Disk.apply_write_get d p p 0 ((fhCells nl).take (r.written (fhCells nl).length)) f h
+  rw [splice_hdr_torn hh] at this
+  simpa [Disk.applyRes] using this
+
+theorem applyRes_sync (d : Disk) (p : Path) (r : Res) : d.applyRes (.sync p) r = d := by
+  cases r <;> simp [Disk.applyRes, Disk.apply, Res.isOk]
+
+/-- **`Close` of the repaired writer under arbitrary results**: whole blocks were appended, at most
+    a known fragment lies behind them, what was not written is still buffered; without a fault
+    everything is written. -/
+theorem closeWF_spec (c : Cfg) (fc : FCfg) (h1 : fc.rollsBackFailedBlock = true) (h2 : fc.restoresOffsetAfterHeader = true)
+    (h3 : fc.splitsOversizedBuffer = true) (mk : Mk) (hmk : MkOk mk) (s : FSt) (F junk : List Cell)
+    (hi : DInv s.d s.w F junk) :
+    ∃ nbs junk', entsOf nbs ++ (closeWF c fc mk s).w.buf = s.w.buf ∧ (∀ b ∈ nbs, b.WF) ∧
+      DInv (closeWF c fc mk s).d (closeWF c fc mk s).w (F ++ render nbs) junk' ∧ (closeWF c fc mk s).w.path = s.w.path ∧
+      (s.rs = [] → (closeWF c fc mk s).w.buf = [] ∧ (closeWF c fc mk s).w.dirty = false) := by
+  obtain ⟨nbs, j, he, hp, hfin, hfin2⟩ := flushWF_spec fc h1 h2 h3 mk hmk { s with failed := false } F junk
+    ⟨hi.file, hi.atEnd, hi.hdr, hi.clean⟩
+  have hpath : (flushWF fc mk { s with failed := false }).w.path = s.w.path := hp.path
+  by_cases hf : (flushWF fc mk { s with failed := false }).failed = true
+  · have : closeWF c fc mk s = flushWF fc mk { s with failed := false } := by unfold closeWF; simp [hf]
+    rw [this]
+    refine ⟨nbs, j, he, hp.wf, hp.inv, hpath, ?_⟩
+    intro hrs
+    have := (hp.clear hrs).2
+    rw [this] at hf; cases hf
+  · have hf' : (flushWF fc mk { s with failed := false }).failed = false := by simpa using hf
+    obtain ⟨hbuf, hdt⟩ := hfin2 hf'
+    have hw := hp.inv.toWInv hdt
+    -- the header rewrite and the fsync change nothing the writer or the loader see
+    have key : ∀ t : FSt, t.w = (flushWF fc mk { s with failed := false }).w →
+        t.d.get s.w.path = (flushWF fc mk { s with failed := false }).d.get s.w.path →
+        ∃ nbs junk', entsOf nbs ++ t.w.buf = s.w.buf ∧ (∀ b ∈ nbs, b.WF) ∧ DInv t.d t.w (F ++ render nbs) junk' ∧
+          t.w.path = s.w.path ∧ (s.rs = [] → t.w.buf = [] ∧ t.w.dirty = false) := by
+      intro t htw htd
+      refine ⟨nbs, [], by rw [htw]; exact he, hp.wf, ?_, by rw [htw]; exact hpath, fun _ => by rw [htw]; exact ⟨hbuf, hdt⟩⟩
+      rw [htw]
+      refine ⟨?_, hw.atEnd, hw.hdr, fun _ => rfl⟩
+      rw [hpath, htd, ← hpath, List.append_nil]; exact hw.file
+    have g1 : ∀ r : Res, ((flushWF fc mk { s with failed := false }).d.applyRes
+        (.write (flushWF fc mk { s with failed := false }).w.path 0 (fhCells (flushWF fc mk { s with failed := false }).w.nl)) r).get s.w.path =
+        (flushWF fc mk { s with failed := false }).d.get s.w.path := by
+      intro r
+      rw [← hpath, get_hdr_rewrite _ _ _ _ hw.file hw.hdr r, hw.file]
+    have hcw : (closeWF c fc mk s).w = (flushWF fc mk { s with failed := false }).w := by
+      unfold closeWF
+      simp only [hf', Bool.false_eq_true, if_false, issue_eq]
+      by_cases k2 : (nextRes (flushWF fc mk { s with failed := false }).rs).1.isOk = true
+      · simp only [k2, Bool.not_true, Bool.false_eq_true, if_false]
+        cases c.closeFsyncs <;> rfl
+      · simp only [k2, Bool.not_false, if_true]
+    have hcd : (closeWF c fc mk s).d.get s.w.path = (flushWF fc mk { s with failed := false }).d.get s.w.path := by
+      unfold closeWF
+      simp only [hf', Bool.false_eq_true, if_false, issue_eq]
+      by_cases k2 : (nextRes (flushWF fc mk { s with failed := false }).rs).1.isOk = true
+      · simp only [k2, Bool.not_true, Bool.false_eq_true, if_false]
+        cases c.closeFsyncs
+        · simp only [Bool.false_eq_true, if_false]; exact g1 _
+        · simp only [if_true, applyRes_sync]; exact g1 _
+      · simp only [k2, Bool.not_false, if_true]; exact g1 _
+    exact key (closeWF c fc mk s) hcw hcd
+
+theorem get_replay_put_del (m : Index) (a : List Op) (k v : Nat) :
+    Index.get (Index.replay m (a ++ [Op.put k v] ++ [Op.del k])) k = none := by
+  rw [Index.replay_append]
+  simp [Index.replay, Index.apply, Index.get_del]
+
+/-- **Repaired writer: a deleted record stays deleted**, whatever happened to the flush its insert
+    triggered: `WriteEntry` reports success (the entry is queued), so the swamp has its pointer and
+    the delete writes a tombstone behind it. -/
+theorem delete_sticks_of_repaired (c : Cfg) (fc : FCfg) (h1 : fc.rollsBackFailedBlock = true)
+    (h2 : fc.restoresOffsetAfterHeader = true) (h3 : fc.splitsOversizedBuffer = true)
+    (h4 : fc.addReportsFlushError = false) : DeleteSticks c fc := by
+  intro mk hmk nl bs hwf w d hinv _ hdirty rs k v sz szd _
+  have hnf : (addWF fc mk { w := w, d := d, rs := rs } (.put k v) sz).failed = false := by
+    unfold addWF; simp only [h4]; split <;> rfl
+  rw [hnf]
+  simp only [Bool.false_eq_true, if_false]
+  obtain ⟨n1, j1, e1, p1⟩ := addWF_spec fc h1 h2 h3 mk hmk { w := w, d := d, rs := rs } _ [] hinv.toDInv (.put k v) sz
+  obtain ⟨n2, j2, e2, w2, i2, q2, _, r2⟩ := addManyWF_spec fc h1 h2 h3 mk hmk [(Op.del k, szd)]
+    (cleared (addWF fc mk { w := w, d := d, rs := rs } (.put k v) sz)) _ j1
+    (⟨p1.inv.file, p1.inv.atEnd, p1.inv.hdr, p1.inv.clean⟩ : DInv (cleared _).d (cleared _).w _ j1)
+  obtain ⟨n3, e3, w3, hget⟩ := syncWF_ok_spec c fc h1 h2 h3 mk hmk _ _ j2 i2 (r2 rfl)
+  have hpath : (addManyWF fc mk (cleared (addWF fc mk { w := w, d := d, rs := rs } (.put k v) sz)) [(Op.del k, szd)]).w.path = w.path := by
+    rw [q2]; exact p1.path
+  rw [hpath] at hget
+  refine ⟨_, hget, ?_⟩
+  have hall : ∀ b ∈ bs ++ n1 ++ n2 ++ n3, b.WF := by
+    intro b hb
+    simp only [List.mem_append] at hb
+    rcases hb with ((hb | hb) | hb) | hb
+    · exact hwf b hb
+    · exact p1.wf b hb
+    · exact w2 b hb
+    · exact w3 b hb
+  have hfile : fileCells nl bs ++ render n1 ++ render n2 ++ render n3 = fileCells nl (bs ++ n1 ++ n2 ++ n3) := by
+    simp [fileCells, render_append, List.append_assoc]
+  rw [hfile]
+  simp only [loadEntries, loadFile_clean c.r nl _ hall]
+  simp only [entsOf_append]
+  have e2' : entsOf n2 ++ (addManyWF fc mk (cleared (addWF fc mk { w := w, d := d, rs := rs } (.put k v) sz)) [(Op.del k, szd)]).w.buf =
+      (addWF fc mk { w := w, d := d, rs := rs } (.put k v) sz).w.buf ++ [Op.del k] := e2
+  have e1' : entsOf n1 ++ (addWF fc mk { w := w, d := d, rs := rs } (.put k v) sz).w.buf = w.buf ++ [Op.put k v] := e1
+  rw [e3, List.append_assoc (entsOf bs ++ entsOf n1), e2', ← List.append_assoc, List.append_assoc (entsOf bs), e1',
+    ← List.append_assoc]
+  exact get_replay_put_del [] (entsOf bs ++ w.buf) k v
+
+/-- **Repaired writer: after a failed Close the writer goes on.** -/
+theorem close_retry_of_repaired (c : Cfg) (fc : FCfg) (h1 : fc.rollsBackFailedBlock = true)
+    (h2 : fc.restoresOffsetAfterHeader = true) (h3 : fc.splitsOversizedBuffer = true)
+    (h5 : fc.closeKeepsWriter = true) : CloseRetry c fc := by
+  intro mk hmk nl bs hwf w d hinv _ hdirty rs items _
+  simp only [closeAgain, h5, if_true]
+  obtain ⟨n1, j1, e1, w1, i1, q1, _⟩ := closeWF_spec c fc h1 h2 h3 mk hmk { w := w, d := d, rs := rs } _ [] hinv.toDInv
+  obtain ⟨n2, j2, e2, w2, i2, q2, _, r2⟩ := addManyWF_spec fc h1 h2 h3 mk hmk items
+    (cleared (closeWF c fc mk { w := w, d := d, rs := rs })) _ j1
+    (⟨i1.file, i1.atEnd, i1.hdr, i1.clean⟩ : DInv (cleared _).d (cleared _).w _ j1)
+  obtain ⟨n3, j3, e3, w3, i3, q3, hfin⟩ := closeWF_spec c fc h1 h2 h3 mk hmk _ _ j2 i2
+  obtain ⟨hbuf, hdt⟩ := hfin (r2 rfl)
+  have hj : j3 = [] := i3.clean hdt
+  subst hj
+  have hpath : (closeWF c fc mk (addManyWF fc mk (cleared (closeWF c fc mk { w := w, d := d, rs := rs })) items)).w.path = w.path := by
+    rw [q3, q2]; exact q1
+  have hget := i3.file
+  rw [hpath, List.append_nil] at hget
+  refine ⟨_, hget, ?_⟩
+  have hall : ∀ b ∈ bs ++ n1 ++ n2 ++ n3, b.WF := by
+    intro b hb
+    simp only [List.mem_append] at hb
+    rcases hb with ((hb | hb) | hb) | hb
+    · exact hwf b hb
+    · exact w1 b hb
+    · exact w2 b hb
+    · exact w3 b hb
+  have hfile : fileCells nl bs ++ render n1 ++ render n2 ++ render n3 = fileCells nl (bs ++ n1 ++ n2 ++ n3) := by
+    simp [fileCells, render_append, List.append_assoc]
+  rw [hfile]
+  simp only [loadEntries, loadFile_clean c.r nl _ hall]
+  simp only [entsOf_append]
+  have e3' : entsOf n3 = (addManyWF fc mk (cleared (closeWF c fc mk { w := w, d := d, rs := rs })) items).w.buf := by
+    rw [← e3, hbuf, List.append_nil]
+  have e2' : entsOf n2 ++ (addManyWF fc mk (cleared (closeWF c fc mk { w := w, d := d, rs := rs })) items).w.buf =
+      (closeWF c fc mk { w := w, d := d, rs := rs }).w.buf ++ items.map (·.1) := e2
+  have e1' : entsOf n1 ++ (closeWF c fc mk { w := w, d := d, rs := rs }).w.buf = w.buf := e1
+  rw [e3', List.append_assoc (entsOf bs ++ entsOf n1), e2', ← List.append_assoc, List.append_assoc (entsOf bs), e1']
+
+/-- **A dead writer after a failed Close** (closed descriptor, writer kept): what is written
+    afterwards never reaches the disk.  Closed witness: one buffered entry, the Close's flush fails. -/
+theorem failed_close_kills_writer (c : Cfg) (fc : FCfg) (h1 : fc.rollsBackFailedBlock = true)
+    (h5 : fc.closeKeepsWriter = false) : ¬ CloseRetry c fc := by
+  intro hh
+  let mk0 : Mk := mkP 1
+  have hmk : MkOk mk0 := mkP_ok 1 Nat.one_pos
+  let w : WSt := { path := .main, pos := 64, nl := 0, buf := [Op.put 1 1], bufSize := 10, bs := 100 }
+  let d : Disk := { main := some (fileCells 0 []), temp := none }
+  have hF : (fileCells 0 []).length = 64 := by simp [fileCells, render, nmCells]
+  have hinv : WInv d w (fileCells 0 []) := ⟨rfl, by simp [w, hF], fileCells_hdr 0 []⟩
+  have hd : d.applyRes (.write .main 64 (hdrCells (mk0 [Op.put 1 1]))) .err = d := by
+    simp only [Disk.applyRes, Res.written, List.take_zero]
+    exact apply_write_nil d .main (fileCells 0 []) rfl 64 (by rw [hF]; exact Nat.le_refl _)
+  have htr : d.applyRes (.truncate .main 64) .ok = d := by
+    simp only [Disk.applyRes, Res.isOk, if_true, Disk.apply, d, Disk.get, Disk.set]
+    rw [List.take_of_length_le (by rw [hF]; exact Nat.le_refl _), hF]; simp
+  have hcl : closeWF c fc mk0 { w := w, d := d, rs := [.err] } =
+      { w := w, d := d, ops := [(.write .main 64 (hdrCells (mk0 [Op.put 1 1])), .err), (.truncate .main 64, .ok)],
+        rs := [], failed := true } := by
+    simp [closeWF, flushWF, flushBlocks, writeBlockF, w, FSt.issue, nextRes, Res.isOk, h1, hd, htr, Res.written, maxEnts]
+  obtain ⟨f, hget, hload⟩ := hh mk0 hmk 0 [] (by simp) w d hinv rfl rfl [.err] [(Op.put 2 2, 10)] (by rw [hcl])
+  simp only [closeAgain, h5, Bool.false_eq_true, if_false, hcl] at hget
+  have : f = fileCells 0 [] := by
+    have : d.get .main = some f := hget
+    simpa [d, Disk.get] using this.symm
+  subst this
+  simp only [loadEntries, loadFile_clean c.r 0 [] (by simp)] at hload
+  simp [entsOf, w] at hload
+
+/-- **A deleted record comes back** when `WriteEntry` reports the error of a flush that kept the
+    entry queued.  Closed witness: one record larger than the block size, the block-header write
+    fails (nothing transferred), the rollback succeeds; no pointer, no tombstone; `Sync` flushes it. -/
+theorem deleted_record_resurrects (c : Cfg) (fc : FCfg) (h1 : fc.rollsBackFailedBlock = true)
+    (h4 : fc.addReportsFlushError = true) : ¬ DeleteSticks c fc := by
+  intro hh
+  let mk0 : Mk := mkP 1
+  have hmk : MkOk mk0 := mkP_ok 1 Nat.one_pos
+  let w : WSt := { path := .main, pos := 64, nl := 0, buf := [], bufSize := 0, bs := 100 }
+  let d : Disk := { main := some (fileCells 0 []), temp := none }
+  have hF : (fileCells 0 []).length = 64 := by simp [fileCells, render, nmCells]
+  have hinv : WInv d w (fileCells 0 []) := ⟨rfl, by simp [w, hF], fileCells_hdr 0 []⟩
+  have hd : d.applyRes (.write .main 64 (hdrCells (mk0 [Op.put 1 1]))) .err = d := by
+    simp only [Disk.applyRes, Res.written, List.take_zero]
+    exact apply_write_nil d .main (fileCells 0 []) rfl 64 (by rw [hF]; exact Nat.le_refl _)
+  have htr : d.applyRes (.truncate .main 64) .ok = d := by
+    simp only [Disk.applyRes, Res.isOk, if_true, Disk.apply, d, Disk.get, Disk.set]
+    rw [List.take_of_length_le (by rw [hF]; exact Nat.le_refl _), hF]; simp
+  have hadd : addWF fc mk0 { w := w, d := d, rs := [.err] } (.put 1 1) 200 =
+      { w := { w with buf := [Op.put 1 1], bufSize := 200, szs := [200] }, d := d,
+        ops := [(.write .main 64 (hdrCells (mk0 [Op.put 1 1])), .err), (.truncate .main 64, .ok)],
+        rs := [], failed := true } := by
+    simp [addWF, WSt.push, WSt.full, flushWF, flushBlocks, writeBlockF, w, FSt.issue, nextRes, Res.isOk, h1, h4, hd, htr,
+      Res.written, maxEnts]
+  obtain ⟨f, hget, hload⟩ := hh mk0 hmk 0 [] (by simp) w d hinv rfl rfl [.err] 1 1 200 10 (by simp [entsOf, w, Index.replay, Index.get])
+  rw [hadd] at hget
+  simp only [if_true] at hget
+  have hinv2 : WInv d { w with buf := [Op.put 1 1], bufSize := 200, szs := [200] } (fileCells 0 []) :=
+    ⟨rfl, by simp [w, hF], fileCells_hdr 0 []⟩
+  obtain ⟨f', hget', hload'⟩ := finish_clean c fc mk0 hmk 0 [] (by simp)
+    { w := { w with buf := [Op.put 1 1], bufSize := 200, szs := [200] }, d := d,
+      ops := [(.write .main 64 (hdrCells (mk0 [Op.put 1 1])), .err), (.truncate .main 64, .ok)],
+      rs := [], failed := true } hinv2 rfl (by simp [maxEnts]) []
+  rw [hget'] at hget
+  cases hget
+  rw [hload'] at hload
+  simp [entsOf, w, Index.replay, Index.apply, Index.put, Index.del, Index.get] at hload
+
+/-- **The repaired writer meets the whole statement.** -/
+theorem holds_of_repaired (c : Cfg) (fc : FCfg) (h1 : fc.rollsBackFailedBlock = true)
+    (h2 : fc.restoresOffsetAfterHeader = true) (h3 : fc.splitsOversizedBuffer = true)
+    (h4 : fc.addReportsFlushError = false) (h5 : fc.closeKeepsWriter = true) : Holds c fc :=
+  ⟨flush_holds_of_repaired c fc h1 h2 h3, delete_sticks_of_repaired c fc h1 h2 h3 h4, close_retry_of_repaired c fc h1 h2 h3 h5⟩
 
 /-- Non-vacuity: the hypotheses of `Holds` are met by the state after a real flush. -/
 example : ∃ (w : WSt) (d : Disk), WInv d w (fileCells 0 []) ∧ w.buf ≠ [] :=
@@ -605,6 +884,16 @@ structure Facts where
   splitsOversizedBuffer : Tri
   /-- `WriteBuffer.Add` / `ShouldFlush` report full at `math.MaxUint16` entries -/
   flushesAtCountBound : Tri
+  /-- readNextBlock takes a zero-filled tail for the end of the data -/
+  zeroTailIsEOF : Tri
+  /-- `WriteBuffer.Restore` puts the entries back in front of what is buffered (the rollback of the model restores the order) -/
+  restorePrepends : Tri
+  /-- `FileWriter.WriteEntry` returns the error of the flush it triggers (the entry stays queued all the same) -/
+  writeEntryReportsFlushError : Tri
+  /-- `FileWriter.Close` leaves the file open when it fails (the writer the chronicler keeps stays usable) -/
+  closeKeepsFileOnError : Tri
+  /-- chroniclerV2.Close / runCompactionLocked return a Close error without dropping the writer -/
+  chronKeepsWriterOnCloseError : Tri
   /-- chronicler.Write logs a WriteEntry error and goes on with the next entry -/
   writeErrorsSkipped : Tri
   /-- fileWriterHandler only logs a Sync error -/
@@ -628,14 +917,14 @@ structure Facts where
   deriving Repr
 
 def cfgOf (f : Facts) : Cfg :=
-  { r := ⟨f.shortHeaderIsEOF.isYes, f.tornDataIsEOF.isYes, false⟩,
+  { r := ⟨f.shortHeaderIsEOF.isYes, f.tornDataIsEOF.isYes, false, f.zeroTailIsEOF.isYes⟩,
     syncFsyncs := f.syncFsyncs.isYes, closeFsyncs := f.closeFsyncs.isYes,
     truncatesTornTail := f.truncatesTornTail.isYes,
     loadCleansTemp := true, rmTempLocked := true, rmTempFromIndex := true, rmTempCompactor := true }
 
 def fcOf (f : Facts) : FCfg :=
   ⟨f.clearsBufferBeforeWrite.isYes, f.rollsBackFailedBlock.isYes, f.restoresOffsetAfterHeader.isYes,
-   f.splitsOversizedBuffer.isYes⟩
+   f.splitsOversizedBuffer.isYes, !f.writeEntryReportsFlushError.isNo, f.closeKeepsFileOnError.isYes⟩
 
 /-- the reader of the model is the reader of the code: checksum, decoded length and entry count
     are validated (`readBlocks` rejects anything but the payload written, and a wrapped count) -/
@@ -647,7 +936,8 @@ def modelApplies (f : Facts) : Bool :=
   f.closeFsyncs.isYes && f.opensExistingForAppend.isYes && f.shortHeaderIsEOF != .unknown && f.tornDataIsEOF != .unknown &&
   f.truncatesTornTail != .unknown && f.clearsBufferBeforeWrite != .unknown && f.rollsBackFailedBlock != .unknown &&
   f.restoresOffsetAfterHeader != .unknown && f.splitsOversizedBuffer != .unknown && f.flushesAtCountBound.isYes &&
-  f.closeErrorAborts.isYes && readerApplies f
+  f.closeErrorAborts.isYes && f.writeEntryReportsFlushError != .unknown && f.closeKeepsFileOnError != .unknown &&
+  f.chronKeepsWriterOnCloseError.isYes && f.zeroTailIsEOF != .unknown && f.restorePrepends.isYes && readerApplies f
 
 /-- the defects the current failure handling exposes (each reproduced by the correspondence run;
     `failed_write_drops_entries` is the kernel-checked witness that refutes `Holds`) -/
@@ -660,19 +950,20 @@ def classify (f : Facts) : Verdict :=
   if !modelApplies f then .undetermined "a failure-handling or block-reader fact was not recognised (the model does not describe this code)"
   else if !f.splitsOversizedBuffer.isYes && f.rollsBackFailedBlock.isYes then
     .violated ["C25-restored-buffer-overflows-entry-count"]
+  else if f.rollsBackFailedBlock.isYes && !f.writeEntryReportsFlushError.isNo then
+    .violated ["C25-deleted-record-resurrects"]
+  else if f.rollsBackFailedBlock.isYes && !f.closeKeepsFileOnError.isYes then
+    .violated ["C25-failed-close-kills-writer"]
   else if f.rollsBackFailedBlock.isYes && f.restoresOffsetAfterHeader.isYes && f.splitsOversizedBuffer.isYes then .holds
   else if f.clearsBufferBeforeWrite.isYes && !f.rollsBackFailedBlock.isYes then .violated (currentFindings f)
   else .undetermined "no theorem for this combination of failure-handling facts"
 
-/-- what is proved whatever the facts: the repaired flush is safe -/
+/-- what is proved whatever the facts: the repaired writer is safe -/
 def Partial (c : Cfg) (fc : FCfg) : Prop :=
-  fc.rollsBackFailedBlock = true → fc.restoresOffsetAfterHeader = true → fc.splitsOversizedBuffer = true → Holds c fc
+  fc.rollsBackFailedBlock = true → fc.restoresOffsetAfterHeader = true → fc.splitsOversizedBuffer = true →
+    fc.addReportsFlushError = false → fc.closeKeepsWriter = true → Holds c fc
 
-theorem holds_repaired (c : Cfg) (fc : FCfg) (h1 : fc.rollsBackFailedBlock = true)
-    (h2 : fc.restoresOffsetAfterHeader = true) (h3 : fc.splitsOversizedBuffer = true) : Holds c fc :=
-  holds_of_repaired c fc h1 h2 h3
-
-theorem C25_partial (c : Cfg) (fc : FCfg) : Partial c fc := fun h1 h2 h3 => holds_repaired c fc h1 h2 h3
+theorem C25_partial (c : Cfg) (fc : FCfg) : Partial c fc := fun h1 h2 h3 h4 h5 => holds_of_repaired c fc h1 h2 h3 h4 h5
 
 theorem classify_sound (f : Facts) : (classify f).Sound (Holds (cfgOf f) (fcOf f)) (Partial (cfgOf f) (fcOf f)) := by
   unfold classify
@@ -681,15 +972,35 @@ theorem classify_sound (f : Facts) : (classify f).Sound (Holds (cfgOf f) (fcOf f
   · split
     · rename_i h
       simp only [Bool.and_eq_true, Bool.not_eq_true'] at h
-      exact ⟨oversized_block_unreadable (cfgOf f) (fcOf f) h.1, C25_partial _ _⟩
+      exact ⟨fun hh => oversized_block_unreadable (cfgOf f) (fcOf f) h.1 hh.flush, C25_partial _ _⟩
     · split
       · rename_i h
         simp only [Bool.and_eq_true] at h
-        exact holds_repaired _ _ h.1.1 h.1.2 h.2
+        exact ⟨fun hh => deleted_record_resurrects (cfgOf f) (fcOf f) h.1 h.2 hh.deleteSticks, C25_partial _ _⟩
       · split
         · rename_i h
           simp only [Bool.and_eq_true, Bool.not_eq_true'] at h
-          exact ⟨failed_write_drops_entries (cfgOf f) (fcOf f) h.1 h.2, C25_partial _ _⟩
-        · trivial
+          exact ⟨fun hh => failed_close_kills_writer (cfgOf f) (fcOf f) h.1 h.2 hh.closeRetry, C25_partial _ _⟩
+        · split
+          · rename_i hno hke h
+            simp only [Bool.and_eq_true] at h
+            have h4 : (fcOf f).addReportsFlushError = false := by
+              have : ¬ ((fcOf f).rollsBackFailedBlock = true ∧ (fcOf f).addReportsFlushError = true) := by
+                simpa [fcOf, Bool.and_eq_true] using hno
+              cases hx : (fcOf f).addReportsFlushError
+              · rfl
+              · exact absurd ⟨h.1.1, hx⟩ this
+            have h5 : (fcOf f).closeKeepsWriter = true := by
+              have : ¬ ((fcOf f).rollsBackFailedBlock = true ∧ (fcOf f).closeKeepsWriter = false) := by
+                simpa [fcOf, Bool.and_eq_true] using hke
+              cases hx : (fcOf f).closeKeepsWriter
+              · exact absurd ⟨h.1.1, hx⟩ this
+              · rfl
+            exact holds_of_repaired _ _ h.1.1 h.1.2 h.2 h4 h5
+          · split
+            · rename_i h
+              simp only [Bool.and_eq_true, Bool.not_eq_true'] at h
+              exact ⟨fun hh => failed_write_drops_entries (cfgOf f) (fcOf f) h.1 h.2 hh.flush, C25_partial _ _⟩
+            · trivial
 
 end Hv.C25
